@@ -374,6 +374,7 @@ Section Sound.
     match tg with
     | TId t => exists f, de f t v <> None
     | TProps ps deny => exists f, de_struct_body T (de f) (dv f) ps deny v <> None
+    | TTuple ts => exists f, de_payload T (de f) (dv f) false (VTuple ts) v <> None
     end.
 
   (* what the checker's verdict [cov c nn tg = true] must mean, at validity fuel [n] *)
@@ -676,6 +677,34 @@ Section Sound.
         apply ustr_eqb_eq in H3. subst. exact V3.
     Qed.
 
+    Lemma tuple_case_sound ty fmt enum cst nv sv ik items ai mni mxi uq props req ap mnp mxp allo anyo oneo no dflt title
+          nn ts v :
+      Forall (Pcov cov n) items ->
+      tuple_case cov ty ik items mni mxi nn ts = true ->
+      in_dom v = true -> (nn = true -> v <> JNull) ->
+      vx n (SObj ty fmt enum cst nv sv ik items ai mni mxi uq props req ap mnp mxp allo anyo oneo no None dflt title) v = true ->
+      exists f l, v = JArr l /\ zipM (de f) ts l <> None.
+    Proof.
+      intros Hitems Hc Hd Hnn Hv.
+      apply vx_parts in Hv.
+      destruct Hv as (Hty & _ & _ & _ & _ & Hal & _ & Harr & _).
+      unfold tuple_case in Hc.
+      rewrite !andb_true_iff in Hc. destruct Hc as [[[Hc1 Hc2] Hc3] Hc4].
+      destruct (ty_is_sound _ _ _ _ _ Hc1 Hty Hnn) as [ity [[<-|[]] Hok]].
+      destruct v as [| | | | |l|]; try discriminate.
+      destruct ik; try discriminate.
+      destruct mni as [a|]; [|discriminate]. destruct mxi as [b|]; [|discriminate].
+      apply andb_true_iff in Hc3. destruct Hc3 as [Ea Eb]. apply N.eqb_eq in Ea, Eb. subst a b.
+      unfold valid_arr_local in Hal. simpl in Hal. rewrite !andb_true_iff in Hal.
+      destruct Hal as [[L1 L2] _]. apply N.leb_le in L1, L2.
+      assert (EL : length l = length ts) by (apply Nat2N.inj; lia).
+      assert (HF := tuple_sound ai items ts l Hitems Hc4 EL (Harr l eq_refl) Hd).
+      apply (ex_fuel_Forall2 (fun f t x => de f t x <> None)) in HF.
+      2:{ intros f f' x y Hle. apply acc_mono. exact Hle. }
+      destruct HF as [f HF].
+      exists f, l. split; [reflexivity|]. apply zipM_ok. exact HF.
+    Qed.
+
     (* a node without union, allOf/not, "$ref", against a non-wrapper type *)
     Lemma leaf_sound ty fmt enum cst nv sv ik items ai mni mxi uq props req ap mnp mxp allo anyo oneo no dflt title
           nn d t v :
@@ -756,20 +785,9 @@ Section Sound.
         destruct (elem_sound _ _ _ _ _ Hitems Hc3 (Harr l eq_refl) Hd) as [f Hf].
         exists (S f). rewrite (de_at _ _ _ _ Ed). cbn [de_node]. rewrite EL, option_map_ok, mapM_ok. exact Hf.
       - (* DTuple *)
-        rewrite !andb_true_iff in Hc. destruct Hc as [[[Hc1 Hc2] Hc3] Hc4].
-        destruct (ty_is_sound _ _ _ _ _ Hc1 Hty Hnn) as [ity [[<-|[]] Hok]].
-        destruct v as [| | | | |l|]; try discriminate.
-        destruct ik; try discriminate.
-        destruct mni as [a|]; [|discriminate]. destruct mxi as [b|]; [|discriminate].
-        apply andb_true_iff in Hc3. destruct Hc3 as [Ea Eb]. apply N.eqb_eq in Ea, Eb. subst a b.
-        unfold valid_arr_local in Hal. simpl in Hal. rewrite !andb_true_iff in Hal.
-        destruct Hal as [[L1 L2] _]. apply N.leb_le in L1, L2.
-        assert (EL : length l = length ts) by (apply Nat2N.inj; lia).
-        assert (HF := tuple_sound ai items ts l Hitems Hc4 EL (Harr l eq_refl) Hd).
-        apply (ex_fuel_Forall2 (fun f t x => de f t x <> None)) in HF.
-        2:{ intros f f' x y Hle. apply acc_mono. exact Hle. }
-        destruct HF as [f HF].
-        exists (S f). rewrite (de_at _ _ _ _ Ed). cbn [de_node]. rewrite option_map_ok, zipM_ok. exact HF.
+        edestruct tuple_case_sound as [f [l [-> Hf]]];
+          [exact Hitems | exact Hc | exact Hd | exact Hnn | exact Hv |].
+        exists (S f). rewrite (de_at _ _ _ _ Ed). cbn [de_node]. rewrite option_map_ok. exact Hf.
       - (* DUnit *)
         apply andb_true_iff in Hc. destruct Hc as [_ Hc1].
         destruct (ty_is_sound false _ _ _ _ Hc1 Hty) as [ity [[<-|[]] Hok]]; [discriminate|].
@@ -808,6 +826,7 @@ Section Sound.
     Proof.
       intros HP Hc Hd Hv. unfold payload_ok in Hc. destruct (v_det vr) as [|t'|ts|ps]; try discriminate.
       - apply (HP false (TId t') pj Hc Hd); [discriminate | exact Hv].
+      - apply (HP false (TTuple ts) pj Hc Hd); [discriminate | exact Hv].
       - apply (HP false (TProps ps deny) pj Hc Hd); [discriminate | exact Hv].
     Qed.
 
@@ -1044,7 +1063,7 @@ Section Sound.
           { destruct (v_det vr) as [|t'|ts|ps].
             - assert (E := null_only_sound n b v Hok Hb). subst v. exists 0. discriminate.
             - apply (HP nn (TId t') v Hok Hd Hnn Hb).
-            - discriminate.
+            - apply (HP nn (TTuple ts) v Hok Hd Hnn Hb).
             - apply (HP nn (TProps ps deny) v Hok Hd Hnn Hb). }
           destruct HU as [f HU]. exists (S f). rewrite (de_at _ _ _ _ Ed). cbn [de_node]. unfold de_enum.
           apply de_untagged_ok. exists vr. split; assumption.
@@ -1111,12 +1130,17 @@ Section Sound.
            n (SObj ty fmt enum cst nv sv ik items ai mni mxi uq props req ap mnp mxp allo anyo oneo no ref dflt title).
     Proof.
       intros Hitems Hprops Hap Hany Hone nn tg v Hc Hd Hnn Hv.
-      destruct tg as [t|ps deny]; cbv beta in Hc; unfold covers_obj in Hc.
+      destruct tg as [t|ps deny|ts]; cbv beta in Hc; unfold covers_obj in Hc.
       - eapply (go_sound ty fmt enum cst nv sv ik items ai mni mxi uq props req ap mnp mxp allo anyo oneo no ref dflt title);
           eassumption.
       - destruct ref; [discriminate|]. destruct anyo; [discriminate|]. destruct oneo; [discriminate|].
         destruct allo; [discriminate|]. destruct no; [discriminate|].
         eapply struct_sound; eassumption.
+      - destruct ref; [discriminate|]. destruct anyo; [discriminate|]. destruct oneo; [discriminate|].
+        destruct allo; [discriminate|]. destruct no; [discriminate|].
+        edestruct tuple_case_sound as [f [l [-> Hf]]];
+          [exact Hitems | exact Hc | exact Hd | exact Hnn | exact Hv |].
+        exists f. simpl. rewrite option_map_ok. exact Hf.
     Qed.
   End Node.
 
@@ -1149,7 +1173,7 @@ Section Sound.
                         Hitems Hai Hprops Hap Hallo Hany Hone Hno] using schema_ind'.
       - split; [|exact I].
         intros nn tg v Hc Hd Hnn Hv. rewrite valid_SBool in Hv. subst b. simpl in Hc.
-        destruct tg as [t|]; [|discriminate]. exists (S FT). apply accepts_any_sound. exact Hc.
+        destruct tg as [t| |]; try discriminate. exists (S FT). apply accepts_any_sound. exact Hc.
       - assert (Hitems' : Forall (Pcov cv n) items)
           by (revert Hitems; apply Forall_impl; intros a [H _]; exact H).
         assert (Hprops' : Forall (fun kv => Pcov cv n (snd kv)) props)
